@@ -103,3 +103,623 @@ Proof.
   replace (Z.to_nat (Z.of_nat n + 1)) with (S n) by lia. change (Z.of_nat 0) with 0 in X. rewrite X. xstep.
   reflexivity.
 Qed.
+
+(* ------------------------------------------------------------------ the read-only data ren_cwid uses *)
+(* globals_at fixes EVERY global at its initial value; ren_placeholder changes its static `bits`, and xorder / xlim
+   are options.  What the functions below need is weaker: the range tables of uc.c, the placeholder table with
+   its string literals, the "" of uc_chr and the bell glyph are where the program put them. *)
+Definition ph_ptr_g (v : val) : list nat := match v with VPtr g _ => [g] | _ => [] end.
+Definition ren_ro : list nat :=
+  [G_dwchars; G_zwchars; G_bchars; G_placeholders; G_lit__0; G_lit_efbfbd_3] ++ flat_map ph_ptr_g gb_placeholders.
+Definition ro_g (g : nat) : bool := existsb (Nat.eqb g) ren_ro.
+Definition ro_at (m : mem) : Prop := forall g, ro_g g = true -> nth_error m g = nth_error cglobals g.
+Definition G_bits : nat := G_ren_placeholder__bits.
+
+Lemma ro_at_globals m : globals_at m -> ro_at m.
+Proof.
+  intros H g Hg. destruct (nth_error cglobals g) as [blk|] eqn:E; [apply H; exact E|].
+  exfalso. unfold ro_g in Hg. apply existsb_exists in Hg. destruct Hg as [x [Hin Hx]]. apply Nat.eqb_eq in Hx. subst x.
+  apply nth_error_None in E. revert Hin. generalize g E. clear.
+  assert (Forall (fun x => (x < length cglobals)%nat) ren_ro) as F
+    by (apply Forall_forall; intros x Hx; apply Nat.ltb_lt; revert x Hx; apply forallb_forall; vm_compute; reflexivity).
+  rewrite Forall_forall in F. intros g E Hin. specialize (F g Hin). lia.
+Qed.
+Lemma ro_lt m g : ro_at m -> ro_g g = true -> (g < length m)%nat.
+Proof.
+  intros H Hg. apply nth_error_Some. rewrite (H g Hg). apply nth_error_Some.
+  unfold ro_g in Hg. apply existsb_exists in Hg. destruct Hg as [x [Hin Hx]]. apply Nat.eqb_eq in Hx. subst x.
+  revert g Hin. apply Forall_forall. apply Forall_forall. intros x Hx. apply Nat.ltb_lt. revert x Hx. apply forallb_forall.
+  vm_compute. reflexivity.
+Qed.
+
+(* uc_isdw / uc_iszw / uc_wid / uc_isbell once more, under ro_at instead of globals_at (same proofs as TrUcTab.v) *)
+Lemma ro_dw m : ro_at m -> nth_error m G_dwchars = Some (tab_block dwchars).
+Proof. intro H. rewrite (H G_dwchars eq_refl), <- gb_dwchars_eq. reflexivity. Qed.
+Lemma ro_zw m : ro_at m -> nth_error m G_zwchars = Some (tab_block zwchars).
+Proof. intro H. rewrite (H G_zwchars eq_refl), <- gb_zwchars_eq. reflexivity. Qed.
+Lemma ro_bc m : ro_at m -> nth_error m G_bchars = Some (tab_block bchars).
+Proof. intro H. rewrite (H G_bchars eq_refl), <- gb_bchars_eq. reflexivity. Qed.
+
+Theorem tr_uc_isdw_ro m c d fuel : ro_at m -> int_ok c -> (length dwchars < fuel)%nat ->
+  callf cprog fuel (S (S d)) F_uc_isdw [VInt c] m = Ok (VInt (b2z (uc_isdw c)), m).
+Proof.
+  intros Hg Hc Hf. enter F_uc_isdw cf_uc_isdw. xstep. unfold uc_isdw.
+  unfold dw_min. match goal with |- context [?k <=? c] => destruct (k <=? c) end; xstep; [|reflexivity].
+  eval_len dwchars.
+  destruct tables_sorted as [S1 _].
+  rewrite (tr_find m G_dwchars dwchars c (RenDefs.mem dwchars c) d fuel); try assumption.
+  - xstep. unfold find_b. rewrite (tfind_is_membership _ _ S1). destruct (RenDefs.mem dwchars c); reflexivity.
+  - apply ro_dw. exact Hg.
+  - apply tab_okb_sound. vm_compute. reflexivity.
+  - vm_compute. lia.
+  - vm_compute. discriminate.
+  - apply tfind_is_membership. exact S1.
+Qed.
+Theorem tr_uc_iszw_ro m c d fuel : ro_at m -> int_ok c -> (length zwchars < fuel)%nat ->
+  callf cprog fuel (S (S d)) F_uc_iszw [VInt c] m = Ok (VInt (b2z (uc_iszw c)), m).
+Proof.
+  intros Hg Hc Hf. enter F_uc_iszw cf_uc_iszw. xstep. unfold uc_iszw.
+  unfold zw_min. match goal with |- context [?k <=? c] => destruct (k <=? c) end; xstep; [|reflexivity].
+  eval_len zwchars.
+  destruct tables_sorted as [_ [S2 _]].
+  rewrite (tr_find m G_zwchars zwchars c (RenDefs.mem zwchars c) d fuel); try assumption.
+  - xstep. unfold find_b. rewrite (tfind_is_membership _ _ S2). destruct (RenDefs.mem zwchars c); reflexivity.
+  - apply ro_zw. exact Hg.
+  - apply tab_okb_sound. vm_compute. reflexivity.
+  - vm_compute. lia.
+  - vm_compute. discriminate.
+  - apply tfind_is_membership. exact S2.
+Qed.
+Theorem tr_uc_wid_ro m b s o d fuel : ro_at m ->
+  str_at m b s -> bytes_lt256 s -> (o + uc_len_b (nthb s o) - 1 <= length s)%nat -> (o <= length s)%nat ->
+  (fuel_tabs <= fuel)%nat ->
+  callf cprog fuel (S (S (S d))) F_uc_wid [VPtr b (Z.of_nat o)] m = Ok (VInt (uc_wid (skipn o s)), m).
+Proof.
+  intros Hg Hs H256 Hlen Ho Hf. unfold fuel_tabs in Hf. enter F_uc_wid cf_uc_wid. xstep.
+  rewrite (tr_uc_code m b s o (S d) fuel Hs H256 Hlen Ho). xstep.
+  pose proof (uc_code_int_ok (skipn o s) (Forall_skipn' _ o s H256)) as Hc.
+  rewrite (tr_uc_iszw_ro m _ d fuel Hg Hc) by lia. xstep. unfold uc_wid.
+  destruct (uc_iszw (Z.of_N (uc_code (skipn o s)))); xstep; [reflexivity|].
+  rewrite (tr_uc_isdw_ro m _ d fuel Hg Hc) by lia. xstep.
+  destruct (uc_isdw (Z.of_N (uc_code (skipn o s)))); xstep; reflexivity.
+Qed.
+Theorem tr_uc_isbell_ro m b s o d fuel : ro_at m ->
+  str_at m b s -> bytes_lt256 s -> (o + uc_len_b (nthb s o) - 1 <= length s)%nat -> (o <= length s)%nat ->
+  (fuel_tabs <= fuel)%nat ->
+  callf cprog fuel (S (S (S d))) F_uc_isbell [VPtr b (Z.of_nat o)] m = Ok (VInt (b2z (uc_isbell (skipn o s))), m).
+Proof.
+  intros Hg Hs H256 Hlen Ho Hf. unfold fuel_tabs in Hf. enter F_uc_isbell cf_uc_isbell. xstep.
+  xload Hs H256 o. unfold uc_isbell. rewrite hd0_skipn, (plain_ascii_z _ (nthb_lt256 s o H256)).
+  pose proof (uc_code_int_ok (skipn o s) (Forall_skipn' _ o s H256)) as Hc.
+  destruct tables_sorted as [_ [_ [S3 _]]].
+  xif; cbn [orb andb]; try reflexivity;
+  (rewrite (tr_uc_code m b s o (S d) fuel Hs H256 Hlen Ho); xstep;
+   rewrite (tr_uc_iszw_ro m _ d fuel Hg Hc) by lia; xstep;
+   destruct (uc_iszw (Z.of_N (uc_code (skipn o s)))); xstep; [reflexivity|];
+   eval_len bchars;
+   rewrite (tr_find m G_bchars bchars _ (RenDefs.mem bchars (Z.of_N (uc_code (skipn o s)))) (S d) fuel); try assumption;
+   [ xstep; unfold find_b; rewrite (tfind_is_membership _ _ S3); cbn [orb];
+     destruct (RenDefs.mem bchars (Z.of_N (uc_code (skipn o s)))); reflexivity
+   | apply ro_bc; exact Hg
+   | apply tab_okb_sound; vm_compute; reflexivity
+   | vm_compute; lia
+   | vm_compute; discriminate
+   | apply tfind_is_membership; exact S3 ]).
+Qed.
+
+(* ------------------------------------------------------------------ the placeholder table in memory *)
+Definition ph_dflt : bytes * bytes * Z := ([], [], 0).
+Definition nph : nat := length placeholders.
+Definition ph_src (i : nat) : bytes := fst (fst (nth i placeholders ph_dflt)).
+Definition ph_dst (i : nat) : bytes := snd (fst (nth i placeholders ph_dflt)).
+Definition ph_w (i : nat) : Z := snd (nth i placeholders ph_dflt).
+Definition ph_src_g (i : nat) : nat := match nth (3 * i) gb_placeholders VUndef with VPtr g _ => g | _ => O end.
+Definition ph_dst_g (i : nat) : nat := match nth (3 * i + 1) gb_placeholders VUndef with VPtr g _ => g | _ => O end.
+Definition byte_okb (c : N) : bool := ((0 <? c) && (c <? 256))%N.
+(* row i of the C initializer (three cells: two pointers to string literals and the width) is row i of the
+   table tools/translate.py dumped, the literals are read-only data, the source character is complete *)
+Definition ph_row_ok (i : nat) : Prop :=
+  nth_error gb_placeholders (3 * i) = Some (VPtr (ph_src_g i) 0) /\
+  nth_error gb_placeholders (3 * i + 1) = Some (VPtr (ph_dst_g i) 0) /\
+  nth_error gb_placeholders (3 * i + 2) = Some (VInt (ph_w i)) /\
+  nth_error cglobals (ph_src_g i) = Some (cstr_block (zb (ph_src i))) /\
+  nth_error cglobals (ph_dst_g i) = Some (cstr_block (zb (ph_dst i))) /\
+  ro_g (ph_src_g i) = true /\ ro_g (ph_dst_g i) = true /\
+  forallb byte_okb (ph_src i) = true /\ forallb byte_okb (ph_dst i) = true /\
+  (uc_len_b (nthb (ph_src i) 0) - 1 <=? length (ph_src i))%nat = true /\
+  ((-2147483648 <=? ph_w i) && (ph_w i <=? 2147483647)) = true.
+Lemma ph_rows : Forall ph_row_ok (seq 0 nph).
+Proof.
+  let l := eval vm_compute in (seq 0 nph) in change (seq 0 nph) with l.
+  repeat (apply Forall_cons; [unfold ph_row_ok; repeat split; vm_compute; reflexivity|]). apply Forall_nil.
+Qed.
+Lemma ph_row i : (i < nph)%nat -> ph_row_ok i.
+Proof. intro H. pose proof ph_rows as F. rewrite Forall_forall in F. apply F. apply in_seq. lia. Qed.
+Lemma ph_len : length gb_placeholders = (3 * nph)%nat.
+Proof. vm_compute. reflexivity. Qed.
+Lemma byte_okb_nonul s : forallb byte_okb s = true -> nonul s.
+Proof.
+  intro H. unfold nonul. apply Forall_forall. intros x Hx. rewrite forallb_forall in H. specialize (H x Hx).
+  unfold byte_okb in H. apply andb_prop in H. destruct H as [A B]. apply N.ltb_lt in A, B. split; assumption.
+Qed.
+
+(* ------------------------------------------------------------------ conf_placeholder *)
+Ltac eval_div :=
+  match goal with
+  | |- context [if ?a =? 0 then Err EDivZero else chk U64 (?x ÷ ?a)] =>
+      let v := eval vm_compute in (if a =? 0 then @Err Z EDivZero else chk U64 (x ÷ a)) in
+      change (if a =? 0 then Err EDivZero else chk U64 (x ÷ a)) with v
+  end; xstep;
+  match goal with |- context [?k <=? wrap U64 ?i] => change k with (Z.of_nat nph) end.
+
+Lemma load_ptr_cell (m : mem) g (blk : block) o v : nth_error m g = Some blk -> 0 <= o -> nth_error blk (Z.to_nat o) = Some v ->
+  load m g o = Ok v.
+Proof. intros Hm Ho Hv. unfold load. rewrite Hm. destruct (Z.ltb_spec o 0); [lia|]. rewrite Hv. reflexivity. Qed.
+
+(* an index outside the table: 1, nothing stored *)
+Theorem tr_conf_placeholder_out m idx sv dv wv d fuel : -2147483648 <= idx <= 2147483647 ->
+  (idx < 0 \/ Z.of_nat nph <= idx) ->
+  callf cprog fuel (S d) F_conf_placeholder [VInt idx; sv; dv; wv] m = Ok (VInt 1, m).
+Proof.
+  intros Hi Hout. enter F_conf_placeholder cf_conf_placeholder. xstep.
+  destruct (Z.ltb_spec idx 0); xstep; [reflexivity|].
+  eval_div. rewrite wrap_U64_id by lia.
+  destruct (Z.leb_spec (Z.of_nat nph) idx); [|lia]. xstep. reflexivity.
+Qed.
+
+(* row i: *s, *d, *wid (three one-cell objects, all different) receive the row *)
+Theorem tr_conf_placeholder_in m i sb db wb vs vd vw d fuel : nth_error m G_placeholders = Some gb_placeholders ->
+  (i < nph)%nat -> nth_error m sb = Some [vs] -> nth_error m db = Some [vd] -> nth_error m wb = Some [vw] ->
+  sb <> db -> sb <> wb -> db <> wb -> sb <> G_placeholders -> db <> G_placeholders ->
+  callf cprog fuel (S d) F_conf_placeholder [VInt (Z.of_nat i); VPtr sb 0; VPtr db 0; VPtr wb 0] m
+  = Ok (VInt 0, upd (upd (upd m sb [VPtr (ph_src_g i) 0]) db [VPtr (ph_dst_g i) 0]) wb [VInt (ph_w i)]).
+Proof.
+  intros Hg Hi Hsb Hdb Hwb N1 N2 N3 N4 N5.
+  destruct (ph_row i Hi) as [R0 [R1 [R2 [_ [_ [_ [_ [_ [_ [_ Rw]]]]]]]]]].
+  apply andb_prop in Rw. destruct Rw as [Rw1 Rw2]. apply Z.leb_le in Rw1, Rw2.
+  assert (Hnp : Z.of_nat nph <= 2147483647) by (vm_compute; discriminate).
+  assert (Lsb : (sb < length m)%nat) by (apply nth_error_Some; congruence).
+  assert (Ldb : (db < length m)%nat) by (apply nth_error_Some; congruence).
+  enter F_conf_placeholder cf_conf_placeholder. xstep.
+  destruct (Z.ltb_spec (Z.of_nat i) 0); [lia|]. xstep.
+  eval_div. rewrite wrap_U64_id by lia.
+  destruct (Z.leb_spec (Z.of_nat nph) (Z.of_nat i)); [lia|]. xstep.
+  rewrite (load_ptr_cell m G_placeholders gb_placeholders (0 + 3 * Z.of_nat i) (VPtr (ph_src_g i) 0) Hg);
+    [|lia|replace (Z.to_nat (0 + 3 * Z.of_nat i)) with (3 * i)%nat by lia; exact R0]. xstep.
+  rewrite (store_ok m sb [vs] 0 _ Hsb) by (cbn; lia). xstep. change (upd [vs] (Z.to_nat 0) ?x) with [x].
+  set (m1 := upd m sb [VPtr (ph_src_g i) 0]).
+  assert (Hg1 : nth_error m1 G_placeholders = Some gb_placeholders) by (unfold m1; rewrite mem_upd_other by auto; exact Hg).
+  rewrite (load_ptr_cell m1 G_placeholders gb_placeholders (0 + 3 * Z.of_nat i + 1 * 1) (VPtr (ph_dst_g i) 0) Hg1);
+    [|lia|replace (Z.to_nat (0 + 3 * Z.of_nat i + 1 * 1)) with (3 * i + 1)%nat by lia; exact R1]. xstep.
+  assert (Hdb1 : nth_error m1 db = Some [vd]) by (unfold m1; rewrite mem_upd_other by auto; exact Hdb).
+  rewrite (store_ok m1 db [vd] 0 _ Hdb1) by (cbn; lia). xstep. change (upd [vd] (Z.to_nat 0) ?x) with [x].
+  set (m2 := upd m1 db [VPtr (ph_dst_g i) 0]).
+  assert (L1 : length m1 = length m) by (apply upd_length; exact Lsb).
+  assert (Hg2 : nth_error m2 G_placeholders = Some gb_placeholders) by (unfold m2; rewrite mem_upd_other by (auto; lia); exact Hg1).
+  rewrite (load_ptr_cell m2 G_placeholders gb_placeholders (0 + 3 * Z.of_nat i + 1 * 2) (VInt (ph_w i)) Hg2);
+    [|lia|replace (Z.to_nat (0 + 3 * Z.of_nat i + 1 * 2)) with (3 * i + 2)%nat by lia; exact R2]. xstep.
+  assert (Hwb2 : nth_error m2 wb = Some [vw]).
+  { unfold m2. rewrite mem_upd_other by (auto; lia). unfold m1. rewrite mem_upd_other by auto. exact Hwb. }
+  rewrite !(wrap_I32_id (ph_w i)) by lia.
+  rewrite (store_ok m2 wb [vw] 0 _ Hwb2) by (cbn; lia). xstep. reflexivity.
+Qed.
+
+(* ------------------------------------------------------------------ ren_placeholder *)
+Definition fbits (bv : N) (p : bytes * bytes * Z) : N := N.land bv (hd0 (fst (fst p))).
+Lemma ph_bits_fold : ph_bits = fold_left fbits placeholders 65535%N.
+Proof. reflexivity. Qed.
+Definition bits_ok (m : mem) : Prop := cell_at m G_bits 65535 \/ cell_at m G_bits (Z.of_N ph_bits).
+
+(* the memory while ren_placeholder runs, against the memory m0 after its two mallocs: only the cells of
+   src (block sb), dst (db), *wid (wb) and the static bits differ *)
+Definition phst (m0 M : mem) (sb db wb : nat) (vs vd vw : val) (bv : Z) : Prop :=
+  length M = length m0 /\
+  (forall g, g <> sb -> g <> db -> g <> wb -> g <> G_bits -> nth_error M g = nth_error m0 g) /\
+  nth_error M sb = Some [vs] /\ nth_error M db = Some [vd] /\ nth_error M wb = Some [vw] /\ cell_at M G_bits bv.
+Definition phdist (sb db wb : nat) : Prop :=
+  sb <> db /\ sb <> wb /\ db <> wb /\ sb <> G_bits /\ db <> G_bits /\ wb <> G_bits /\
+  ro_g sb = false /\ ro_g db = false /\ ro_g wb = false.
+Lemma ro_bits : ro_g G_bits = false.
+Proof. vm_compute. reflexivity. Qed.
+
+Lemma phst_lt m0 M sb db wb vs vd vw bv : phst m0 M sb db wb vs vd vw bv ->
+  (sb < length M)%nat /\ (db < length M)%nat /\ (wb < length M)%nat /\ (G_bits < length M)%nat.
+Proof.
+  intros [_ [_ [A [B [C D]]]]]. unfold cell_at in D.
+  repeat split; apply nth_error_Some; congruence.
+Qed.
+Lemma phst_upd3 m0 M sb db wb vs vd vw bv x y z : phdist sb db wb -> phst m0 M sb db wb vs vd vw bv ->
+  phst m0 (upd (upd (upd M sb [x]) db [y]) wb [z]) sb db wb x y z bv.
+Proof.
+  intros [N1 [N2 [N3 [N4 [N5 [N6 _]]]]]] H. destruct (phst_lt _ _ _ _ _ _ _ _ _ H) as [L1 [L2 [L3 L4]]].
+  destruct H as [HL [HO [A [B [C D]]]]].
+  assert (E1 : length (upd M sb [x]) = length M) by (apply upd_length; exact L1).
+  assert (E2 : length (upd (upd M sb [x]) db [y]) = length M) by (rewrite upd_length; lia).
+  unfold phst, cell_at in *. repeat split.
+  - rewrite upd_length; lia.
+  - intros g G1 G2 G3 G4. rewrite !mem_upd_other by (auto; lia). apply HO; assumption.
+  - rewrite mem_upd_other by (auto; lia). rewrite mem_upd_other by (auto; lia). apply mem_upd_same. exact L1.
+  - rewrite mem_upd_other by (auto; lia). apply mem_upd_same. lia.
+  - apply mem_upd_same. lia.
+  - rewrite !mem_upd_other by (auto; lia). exact D.
+Qed.
+Lemma phst_updw m0 M sb db wb vs vd vw bv z : phdist sb db wb -> phst m0 M sb db wb vs vd vw bv ->
+  phst m0 (upd M wb [z]) sb db wb vs vd z bv.
+Proof.
+  intros [N1 [N2 [N3 [N4 [N5 [N6 _]]]]]] H. destruct (phst_lt _ _ _ _ _ _ _ _ _ H) as [L1 [L2 [L3 L4]]].
+  destruct H as [HL [HO [A [B [C D]]]]]. unfold phst, cell_at in *. repeat split.
+  - rewrite upd_length; lia.
+  - intros g G1 G2 G3 G4. rewrite !mem_upd_other by (auto; lia). apply HO; assumption.
+  - rewrite mem_upd_other by (auto; lia). exact A.
+  - rewrite mem_upd_other by (auto; lia). exact B.
+  - apply mem_upd_same. lia.
+  - rewrite !mem_upd_other by (auto; lia). exact D.
+Qed.
+Lemma phst_updb m0 M sb db wb vs vd vw bv z : phdist sb db wb -> phst m0 M sb db wb vs vd vw bv ->
+  phst m0 (upd M G_bits [VInt z]) sb db wb vs vd vw z.
+Proof.
+  intros [N1 [N2 [N3 [N4 [N5 [N6 _]]]]]] H. destruct (phst_lt _ _ _ _ _ _ _ _ _ H) as [L1 [L2 [L3 L4]]].
+  destruct H as [HL [HO [A [B [C D]]]]]. unfold phst, cell_at in *. repeat split.
+  - rewrite upd_length; lia.
+  - intros g G1 G2 G3 G4. rewrite !mem_upd_other by (auto; lia). apply HO; assumption.
+  - rewrite mem_upd_other by (auto; lia). exact A.
+  - rewrite mem_upd_other by (auto; lia). exact B.
+  - rewrite mem_upd_other by (auto; lia). exact C.
+  - apply mem_upd_same. lia.
+Qed.
+Lemma phst_ro m0 M sb db wb vs vd vw bv : phdist sb db wb -> phst m0 M sb db wb vs vd vw bv -> ro_at m0 -> ro_at M.
+Proof.
+  intros [_ [_ [_ [_ [_ [_ [R1 [R2 R3]]]]]]]] [_ [HO _]] Hro g Hg. rewrite <- (Hro g Hg). apply HO; intro E; subst g; try congruence.
+  rewrite ro_bits in Hg. discriminate.
+Qed.
+Lemma phst_str m0 M sb db wb vs vd vw bv g s : phst m0 M sb db wb vs vd vw bv -> str_at m0 g s ->
+  g <> sb -> g <> db -> g <> wb -> g <> G_bits -> str_at M g s.
+Proof. intros [_ [HO _]] Hs G1 G2 G3 G4. unfold str_at in *. rewrite HO by assumption. exact Hs. Qed.
+Lemma ro_str_src M i : ro_at M -> (i < nph)%nat -> str_at M (ph_src_g i) (ph_src i).
+Proof. intros Hro Hi. destruct (ph_row i Hi) as [_ [_ [_ [A [_ [R _]]]]]]. unfold str_at. rewrite (Hro _ R). exact A. Qed.
+Lemma ro_str_dst M i : ro_at M -> (i < nph)%nat -> str_at M (ph_dst_g i) (ph_dst i).
+Proof. intros Hro Hi. destruct (ph_row i Hi) as [_ [_ [_ [_ [A [_ [R _]]]]]]]. unfold str_at. rewrite (Hro _ R). exact A. Qed.
+Lemma ro_ph M : ro_at M -> nth_error M G_placeholders = Some gb_placeholders.
+Proof. intro H. rewrite (H G_placeholders eq_refl). reflexivity. Qed.
+
+Lemma hd0_nthb s : hd0 s = nthb s 0.
+Proof. destruct s; reflexivity. Qed.
+Lemma land_byte_lt a c : (c < 256)%N -> (N.land a c < 256)%N.
+Proof.
+  intro H. replace c with (N.land c (N.ones 8)) by (rewrite N.land_ones; apply N.mod_small; exact H).
+  rewrite N.land_assoc. apply (land_mask_lt _ 8).
+Qed.
+Lemma sx_id : forall c, (c < 256)%N -> wrap I32 (wrap I8 (Z.of_N c)) = wrap I8 (Z.of_N c).
+Proof. byte_fact. Qed.
+Lemma sx_eqb x c : (x < 256)%N -> (c < 256)%N ->
+  (wrap I32 (wrap I8 (Z.of_N x)) =? wrap I32 (wrap I8 (Z.of_N c))) = (x =? c)%N.
+Proof. intros Hx Hc. rewrite !sx_id by assumption. apply wrap_I8_inj; assumption. Qed.
+Lemma of_N_eqb a b : (Z.of_N a =? Z.of_N b) = (a =? b)%N.
+Proof. destruct (Z.eqb_spec (Z.of_N a) (Z.of_N b)); destruct (N.eqb_spec a b); try reflexivity; lia. Qed.
+Lemma skipn_cons_nth {A} (l : list A) i d : (i < length l)%nat -> skipn i l = nth i l d :: skipn (S i) l.
+Proof.
+  revert l; induction i as [|i IH]; intros [|x l] H; cbn in H; try lia; [reflexivity|].
+  cbn [skipn nth]. apply IH. lia.
+Qed.
+
+Definition ph_loop1 : stmt := match fn_body cf_ren_placeholder with SSeq _ (SSeq (SIf _ (SSeq _ w) _) _) => w | _ => SSkip end.
+Definition ph_loop2 : stmt := match fn_body cf_ren_placeholder with SSeq _ (SSeq _ (SSeq (SIf _ (SSeq _ w) _) _)) => w | _ => SSkip end.
+Definition ph_tail : stmt := match fn_body cf_ren_placeholder with SSeq _ (SSeq _ t) => t | _ => SSkip end.
+
+Section Placeholder.
+  Variables (F : nat) (d : nat) (m0 : mem) (sb db wb : nat).
+  Hypothesis Hdist : phdist sb db wb.
+  Hypothesis Hro0 : ro_at m0.
+  Let call := callf cprog F (S (S (S d))).
+
+  Lemma nph_int : Z.of_nat nph < 2147483647.
+  Proof. vm_compute. reflexivity. Qed.
+
+  (* the first loop: bits &= (unsigned char) *src over the whole table *)
+  Lemma ph_loop1_ok sv : forall k i M vs vd vw bv fuel, (i + k = nph)%nat ->
+    phst m0 M sb db wb vs vd vw (Z.of_N bv) -> (bv <= 65535)%N -> (k < fuel)%nat ->
+    exists M' vs' vd' vw',
+      exec call fuel ph_loop1 (mkst [sv; VPtr wb 0; VPtr sb 0; VPtr db 0; VInt (Z.of_nat i)] M)
+      = ONormal (mkst [sv; VPtr wb 0; VPtr sb 0; VPtr db 0; VInt (Z.of_nat nph)] M') /\
+      phst m0 M' sb db wb vs' vd' vw' (Z.of_N (fold_left fbits (skipn i placeholders) bv)).
+  Proof.
+    pose proof nph_int as Hnp.
+    induction k as [|k IH]; intros i M vs vd vw bv fuel Hik Hst Hbv Hf; (destruct fuel as [|fuel]; [lia|]);
+      unfold ph_loop1; cbn [fn_body cf_ren_placeholder]; rewrite exec_for; xstep; unfold call.
+    - rewrite tr_conf_placeholder_out by lia. xstep.
+      assert (i = nph) by lia. subst i. rewrite skipn_all2 by (unfold nph; lia). cbn [fold_left].
+      exists M, vs, vd, vw. split; [reflexivity|exact Hst].
+    - assert (Hi : (i < nph)%nat) by lia.
+      destruct Hdist as [N1 [N2 [N3 [N4 [N5 [N6 [R1 [R2 R3]]]]]]]].
+      pose proof (phst_ro _ _ _ _ _ _ _ _ _ Hdist Hst Hro0) as HroM.
+      destruct Hst as [HL [HO [A [B [C D]]]]] eqn:EHst. clear EHst.
+      rewrite (tr_conf_placeholder_in M i sb db wb vs vd vw _ F (ro_ph M HroM) Hi A B C); try assumption;
+        try (intro E; rewrite E in *; discriminate).
+      xstep.
+      pose proof (phst_upd3 m0 M sb db wb vs vd vw (Z.of_N bv) (VPtr (ph_src_g i) 0) (VPtr (ph_dst_g i) 0) (VInt (ph_w i)) Hdist
+                    (conj HL (conj HO (conj A (conj B (conj C D)))))) as Hst1.
+      set (M1 := upd (upd (upd M sb [VPtr (ph_src_g i) 0]) db [VPtr (ph_dst_g i) 0]) wb [VInt (ph_w i)]) in *.
+      pose proof (phst_ro _ _ _ _ _ _ _ _ _ Hdist Hst1 Hro0) as HroM1.
+      destruct Hst1 as [HL1 [HO1 [A1 [B1 [C1 D1]]]]] eqn:EH. clear EH.
+      rewrite (load_cell M1 G_ren_placeholder__bits _ D1). xstep.
+      rewrite (load_ptr_cell M1 sb _ 0 _ A1 ltac:(lia) eq_refl). xstep.
+      pose proof (ro_str_src M1 i HroM1 Hi) as Hsrc.
+      destruct (ph_row i Hi) as [_ [_ [_ [_ [_ [_ [_ [Rs _]]]]]]]].
+      pose proof (nonul_lt256 _ (byte_okb_nonul _ Rs)) as Hs256.
+      rewrite (load_str M1 _ (ph_src i) 0 0%nat Hsrc) by (cbn; lia). xstep.
+      rewrite wrap_byte_chain by (apply nthb_lt256; exact Hs256).
+      rewrite (wrap_I32_id (Z.of_N bv)) by lia. rewrite of_N_land.
+      pose proof (land_byte_lt bv (nthb (ph_src i) 0) (nthb_lt256 _ 0 Hs256)) as Hland.
+      rewrite (wrap_I32_id (Z.of_N _)) by lia.
+      rewrite (store_cell M1 G_ren_placeholder__bits _ _ D1). xstep.
+      rewrite chk_I32 by lia. xstep. replace (Z.of_nat i + 1) with (Z.of_nat (S i)) by lia.
+      pose proof (phst_updb m0 M1 sb db wb _ _ _ _ (Z.of_N (N.land bv (nthb (ph_src i) 0))) Hdist
+                    (conj HL1 (conj HO1 (conj A1 (conj B1 (conj C1 D1)))))) as Hst2.
+      destruct (IH (S i) _ _ _ _ (N.land bv (nthb (ph_src i) 0)) fuel ltac:(lia) Hst2 ltac:(lia) ltac:(lia))
+        as [M' [vs' [vd' [vw' [X Y]]]]].
+      exists M', vs', vd', vw'. split.
+      + unfold ph_loop1 in X; cbn [fn_body cf_ren_placeholder] in X. refine (eq_trans X _). reflexivity.
+      + rewrite (skipn_cons_nth placeholders i ph_dflt) by exact Hi. cbn [fold_left]. unfold fbits at 2.
+        rewrite hd0_nthb. exact Y.
+  Qed.
+End Placeholder.
+
+Lemma ph_lookup_step i t : (i < nph)%nat ->
+  ph_lookup (skipn i placeholders) t =
+  if ((hd0 (ph_src i) =? hd0 t) && (uc_code (ph_src i) =? uc_code t))%N then Some (ph_dst i, ph_w i)
+  else ph_lookup (skipn (S i) placeholders) t.
+Proof.
+  intro H. rewrite (skipn_cons_nth placeholders i ph_dflt) by exact H. unfold ph_src, ph_dst, ph_w.
+  destruct (nth i placeholders ph_dflt) as [[a b'] c]. reflexivity.
+Qed.
+Definition ph_fin : stmt := match ph_tail with SSeq _ f => f | _ => SSkip end.
+Lemma bell_lit : nth_error cglobals G_lit_efbfbd_3 = Some (cstr_block (zb bell_glyph)).
+Proof. reflexivity. Qed.
+
+Section Placeholder2.
+  Variables (F : nat) (d : nat) (m0 : mem) (sb db wb : nat) (b : nat) (s : bytes) (o : nat).
+  Hypothesis Hdist : phdist sb db wb.
+  Hypothesis Hro0 : ro_at m0.
+  Hypothesis Hs0 : str_at m0 b s.
+  Hypothesis Hb : b <> sb /\ b <> db /\ b <> wb /\ b <> G_bits.
+  Hypothesis H256 : bytes_lt256 s.
+  Hypothesis Hlen : (o + uc_len_b (nthb s o) - 1 <= length s)%nat.
+  Hypothesis Ho : (o <= length s)%nat.
+  Let call := callf cprog F (S (S (S d))).
+  Let t := skipn o s.
+  Local Notation sv := (VPtr b (Z.of_nat o)).
+
+  (* the second loop: the first row whose source has the same first byte and the same code, or none *)
+  Lemma ph_loop2_ok bvz : forall k i M vs vd vw fuel, (i + k = nph)%nat ->
+    phst m0 M sb db wb vs vd vw bvz -> (k < fuel)%nat ->
+    exists M' vs' vd' vw' loc',
+      phst m0 M' sb db wb vs' vd' vw' bvz /\
+      match ph_lookup (skipn i placeholders) t with
+      | Some (dm, w) => exists j, (j < nph)%nat /\ ph_dst j = dm /\ vw' = VInt w /\
+          exec call fuel ph_loop2 (mkst [sv; VPtr wb 0; VPtr sb 0; VPtr db 0; VInt (Z.of_nat i)] M)
+          = OReturn (VPtr (ph_dst_g j) 0) (mkst loc' M')
+      | None =>
+          exec call fuel ph_loop2 (mkst [sv; VPtr wb 0; VPtr sb 0; VPtr db 0; VInt (Z.of_nat i)] M)
+          = ONormal (mkst [sv; VPtr wb 0; VPtr sb 0; VPtr db 0; VInt (Z.of_nat nph)] M')
+      end.
+  Proof.
+    pose proof nph_int as Hnp. destruct Hb as [B1 [B2 [B3 B4]]].
+    induction k as [|k IH]; intros i M vs vd vw fuel Hik Hst Hf; (destruct fuel as [|fuel]; [lia|]);
+      unfold ph_loop2; cbn [fn_body cf_ren_placeholder]; rewrite exec_for; xstep; unfold call.
+    - rewrite tr_conf_placeholder_out by lia. xstep.
+      assert (i = nph) by lia. subst i. rewrite skipn_all2 by (unfold nph; lia). cbn [ph_lookup].
+      exists M, vs, vd, vw, []. split; [exact Hst|reflexivity].
+    - assert (Hi : (i < nph)%nat) by lia.
+      destruct Hdist as [N1 [N2 [N3 [N4 [N5 [N6 [R1 [R2 R3]]]]]]]].
+      pose proof (phst_ro _ _ _ _ _ _ _ _ _ Hdist Hst Hro0) as HroM.
+      destruct Hst as [HL [HO [A [B [C D]]]]] eqn:EHst. clear EHst.
+      rewrite (tr_conf_placeholder_in M i sb db wb vs vd vw _ F (ro_ph M HroM) Hi A B C); try assumption;
+        try (intro E; rewrite E in *; discriminate).
+      xstep.
+      pose proof (phst_upd3 m0 M sb db wb vs vd vw bvz (VPtr (ph_src_g i) 0) (VPtr (ph_dst_g i) 0) (VInt (ph_w i)) Hdist
+                    (conj HL (conj HO (conj A (conj B (conj C D)))))) as Hst1.
+      set (M1 := upd (upd (upd M sb [VPtr (ph_src_g i) 0]) db [VPtr (ph_dst_g i) 0]) wb [VInt (ph_w i)]) in *.
+      pose proof (phst_ro _ _ _ _ _ _ _ _ _ Hdist Hst1 Hro0) as HroM1.
+      pose proof (phst_str _ _ _ _ _ _ _ _ _ _ _ Hst1 Hs0 B1 B2 B3 B4) as Hs1.
+      pose proof Hst1 as [HL1 [HO1 [A1 [B1' [C1 D1]]]]].
+      pose proof (ro_str_src M1 i HroM1 Hi) as Hsrc.
+      destruct (ph_row i Hi) as [_ [_ [_ [_ [_ [_ [_ [Rs [_ [Rl _]]]]]]]]]].
+      pose proof (nonul_lt256 _ (byte_okb_nonul _ Rs)) as Hs256. apply Nat.leb_le in Rl.
+      rewrite (ph_lookup_step i t Hi).
+      rewrite (load_ptr_cell M1 sb _ 0 _ A1 ltac:(lia) eq_refl). xstep.
+      rewrite (load_str M1 _ (ph_src i) _ 0%nat Hsrc) by (cbn; lia). xstep.
+      rewrite (load_str M1 b s _ o Hs1) by lia. xstep.
+      rewrite (sx_eqb _ _ (nthb_lt256 _ 0 Hs256) (nthb_lt256 _ o H256)).
+      unfold t at 1. rewrite hd0_skipn, hd0_nthb.
+      assert (Hnext : forall Mx, Mx = M1 ->
+        exists (M' : mem) (vs' vd' vw' : val) (loc' : list val),
+          phst m0 M' sb db wb vs' vd' vw' bvz /\
+          match ph_lookup (skipn (S i) placeholders) t with
+          | Some (dm, w) => exists j : nat, (j < nph)%nat /\ ph_dst j = dm /\ vw' = VInt w /\
+              match eval call (EIncLocal true 4 (Some I32) 1)
+                      (mkst [sv; VPtr wb 0; VPtr sb 0; VPtr db 0; VInt (Z.of_nat i)] Mx) with
+              | Ok (_, st3) => exec call fuel ph_loop2 st3
+              | Err x => OErr x
+              end = OReturn (VPtr (ph_dst_g j) 0) (mkst loc' M')
+          | None =>
+              match eval call (EIncLocal true 4 (Some I32) 1)
+                      (mkst [sv; VPtr wb 0; VPtr sb 0; VPtr db 0; VInt (Z.of_nat i)] Mx) with
+              | Ok (_, st3) => exec call fuel ph_loop2 st3
+              | Err x => OErr x
+              end = ONormal (mkst [sv; VPtr wb 0; VPtr sb 0; VPtr db 0; VInt (Z.of_nat nph)] M')
+          end).
+      { intros Mx ->. xstep. rewrite chk_I32 by lia. xstep. replace (Z.of_nat i + 1) with (Z.of_nat (S i)) by lia.
+        apply (IH (S i) M1 _ _ _ fuel ltac:(lia) Hst1 ltac:(lia)). }
+      unfold ph_loop2 in Hnext; cbn [fn_body cf_ren_placeholder] in Hnext.
+      destruct (nthb (ph_src i) 0 =? nthb s o)%N; xstep; cbn [andb]; [|apply Hnext; reflexivity].
+      rewrite (load_ptr_cell M1 sb _ 0 _ A1 ltac:(lia) eq_refl). xstep. unfold call.
+      pose proof (tr_uc_code M1 _ (ph_src i) 0 (S (S d)) F Hsrc Hs256 ltac:(lia) ltac:(lia)) as E.
+      change (Z.of_nat 0) with 0 in E. rewrite E; clear E. xstep.
+      rewrite (tr_uc_code M1 b s o (S (S d)) F Hs1 H256 Hlen Ho). xstep.
+      rewrite of_N_eqb. cbn [skipn]. fold t.
+      destruct (uc_code (ph_src i) =? uc_code t)%N; xstep; [|apply Hnext; reflexivity].
+      rewrite (load_ptr_cell M1 db _ 0 _ B1' ltac:(lia) eq_refl). xstep.
+      exists M1, (VPtr (ph_src_g i) 0), (VPtr (ph_dst_g i) 0), (VInt (ph_w i)), [sv; VPtr wb 0; VPtr sb 0; VPtr db 0; VInt (Z.of_nat i)].
+      split; [exact Hst1|]. exists i. repeat split; try reflexivity. exact Hi.
+  Qed.
+
+  (* if (wid) *wid = 1; if (uc_isbell(s)) return "�"; return NULL; *)
+  Lemma ph_fin_ok bvz M vs vd vw iv fuel : phst m0 M sb db wb vs vd vw bvz -> (fuel_tabs <= F)%nat ->
+    exists M' loc',
+      exec call fuel ph_fin (mkst [sv; VPtr wb 0; VPtr sb 0; VPtr db 0; iv] M)
+      = OReturn (if uc_isbell t then VPtr G_lit_efbfbd_3 0 else VInt 0) (mkst loc' M') /\
+      phst m0 M' sb db wb vs vd (VInt 1) bvz.
+  Proof.
+    intros Hst HF. destruct Hb as [B1 [B2 [B3 B4]]].
+    unfold ph_fin, ph_tail; cbn [fn_body cf_ren_placeholder]. xstep.
+    pose proof Hst as [HL [HO [A [B [C D]]]]].
+    rewrite (store_ok M wb [vw] 0 _ C) by (cbn; lia). xstep. change (upd [vw] (Z.to_nat 0) ?x) with [x].
+    change (wrap I32 1) with 1.
+    pose proof (phst_updw m0 M sb db wb vs vd vw bvz (VInt 1) Hdist Hst) as Hst1.
+    set (M1 := upd M wb [VInt 1]) in *.
+    pose proof (phst_ro _ _ _ _ _ _ _ _ _ Hdist Hst1 Hro0) as HroM1.
+    pose proof (phst_str _ _ _ _ _ _ _ _ _ _ _ Hst1 Hs0 B1 B2 B3 B4) as Hs1.
+    unfold call. rewrite (tr_uc_isbell_ro M1 b s o d F HroM1 Hs1 H256 Hlen Ho HF). xstep. fold t.
+    destruct (uc_isbell t); xstep; eexists; eexists; (split; [reflexivity|exact Hst1]).
+  Qed.
+
+  Lemma ph_bits_int : Z.of_N ph_bits <= 255.
+  Proof. vm_compute. discriminate. Qed.
+
+  (* from the test of the common bits to the return *)
+  Lemma ph_tail_ok M vs vd vw iv fuel : phst m0 M sb db wb vs vd vw (Z.of_N ph_bits) -> (nph < fuel)%nat -> (fuel_tabs <= F)%nat ->
+    exists v M' vs' vd' loc',
+      exec call fuel ph_tail (mkst [sv; VPtr wb 0; VPtr sb 0; VPtr db 0; iv] M) = OReturn v (mkst loc' M') /\
+      phst m0 M' sb db wb vs' vd' (VInt (snd (ren_placeholder t))) (Z.of_N ph_bits) /\
+      match fst (ren_placeholder t) with
+      | Some dm => exists g, v = VPtr g 0 /\ ro_g g = true /\ nth_error cglobals g = Some (cstr_block (zb dm))
+      | None => v = VInt 0
+      end.
+  Proof.
+    intros Hst Hf HF. pose proof ph_bits_int as Hpb. destruct Hb as [B1 [B2 [B3 B4]]].
+    pose proof (phst_str _ _ _ _ _ _ _ _ _ _ _ Hst Hs0 B1 B2 B3 B4) as Hs1.
+    pose proof Hst as [HL [HO [A [B [C D]]]]].
+    unfold ph_tail; cbn [fn_body cf_ren_placeholder]. rewrite exec_seq, exec_if. xcbn.
+    rewrite (load_str M b s _ o Hs1) by lia. xcbn.
+    rewrite wrap_byte_chain by (apply nthb_lt256; exact H256).
+    rewrite (load_cell M G_ren_placeholder__bits _ D). xcbn.
+    rewrite (load_cell M G_ren_placeholder__bits _ D). xcbn.
+    rewrite !(wrap_I32_id (Z.of_N ph_bits)) by lia. rewrite of_N_land, of_N_eqb, nb2z.
+    unfold ren_placeholder. assert (Hhd : hd0 t = nthb s o) by (unfold t; apply hd0_skipn). rewrite !Hhd.
+    assert (Hfin : forall M2 vs2 vd2 vw2 iv2, phst m0 M2 sb db wb vs2 vd2 vw2 (Z.of_N ph_bits) ->
+      exists v M' vs' vd' loc',
+        exec call fuel ph_fin (mkst [sv; VPtr wb 0; VPtr sb 0; VPtr db 0; iv2] M2) = OReturn v (mkst loc' M') /\
+        phst m0 M' sb db wb vs' vd' (VInt (snd (if uc_isbell t then Some bell_glyph else None, 1))) (Z.of_N ph_bits) /\
+        match fst (if uc_isbell t then Some bell_glyph else None, 1) with
+        | Some dm => exists g, v = VPtr g 0 /\ ro_g g = true /\ nth_error cglobals g = Some (cstr_block (zb dm))
+        | None => v = VInt 0
+        end).
+    { intros M2 vs2 vd2 vw2 iv2 H2. destruct (ph_fin_ok _ M2 vs2 vd2 vw2 iv2 fuel H2 HF) as [M' [loc' [X Y]]].
+      exists (if uc_isbell t then VPtr G_lit_efbfbd_3 0 else VInt 0), M', vs2, vd2, loc'.
+      split; [exact X|]. split; [exact Y|]. cbn [fst snd].
+      destruct (uc_isbell t); [|reflexivity]. exists G_lit_efbfbd_3. repeat split. }
+    unfold ph_fin, ph_tail in Hfin; cbn [fn_body cf_ren_placeholder] in Hfin.
+    destruct (N.land (nthb s o) ph_bits =? ph_bits)%N.
+    - rewrite exec_seq, exec_expr. xcbn.
+      destruct (ph_loop2_ok (Z.of_N ph_bits) nph 0%nat M vs vd vw fuel ltac:(lia) Hst Hf) as [M' [vs' [vd' [vw' [loc' [Hst' X]]]]]].
+      unfold ph_loop2 in X; cbn [fn_body cf_ren_placeholder] in X. cbn [skipn] in X. change (Z.of_nat 0) with 0 in X.
+      destruct (ph_lookup placeholders t) as [[dm w]|].
+      + destruct X as [j [Hj [Hd [Hw X]]]]. rewrite X. subst vw'.
+        exists (VPtr (ph_dst_g j) 0), M', vs', vd', loc'. split; [reflexivity|]. split; [exact Hst'|].
+        cbv iota. cbn [fst]. exists (ph_dst_g j). destruct (ph_row j Hj) as [_ [_ [_ [_ [P [_ [Q _]]]]]]].
+        rewrite <- Hd. repeat split; assumption.
+      + rewrite X. apply (Hfin M' vs' vd' vw' _ Hst').
+    - rewrite exec_skip. apply (Hfin M vs vd vw iv Hst).
+  Qed.
+End Placeholder2.
+
+Lemma ro_false_ge m g : ro_at m -> (length m <= g)%nat -> ro_g g = false.
+Proof. intros H Hg. destruct (ro_g g) eqn:E; [|reflexivity]. pose proof (ro_lt m g H E). lia. Qed.
+Lemma ro_at_app m r : ro_at m -> ro_at (m ++ r).
+Proof. intros H g Hg. rewrite nth_error_app1 by (apply (ro_lt m g H Hg)). apply H. exact Hg. Qed.
+Lemma ph_bits_ne : (Z.of_N ph_bits =? 65535) = false.
+Proof. vm_compute. reflexivity. Qed.
+Lemma str_bits_ne m b s : str_at m b s -> bits_ok m -> b <> G_bits.
+Proof.
+  intros Hs Hb E. subst b. unfold str_at in Hs. unfold bits_ok, cell_at in Hb.
+  destruct Hb as [Hb|Hb]; rewrite Hs in Hb; destruct s as [|x s]; cbn in Hb; try discriminate;
+    destruct s; discriminate.
+Qed.
+
+Theorem tr_ren_placeholder m b s o wb vw0 d fuel :
+  ro_at m -> bits_ok m -> str_at m b s -> bytes_lt256 s -> (o + uc_len_b (nthb s o) - 1 <= length s)%nat -> (o <= length s)%nat ->
+  nth_error m wb = Some [vw0] -> wb <> G_bits -> ro_g wb = false -> wb <> b ->
+  (nph < fuel)%nat -> (fuel_tabs <= fuel)%nat ->
+  exists v M, callf cprog fuel (S (S (S (S d)))) F_ren_placeholder [VPtr b (Z.of_nat o); VPtr wb 0] m = Ok (v, M) /\
+    length M = (length m + 2)%nat /\
+    (forall g, (g < length m)%nat -> g <> wb -> g <> G_bits -> nth_error M g = nth_error m g) /\
+    nth_error M wb = Some [VInt (snd (ren_placeholder (skipn o s)))] /\
+    cell_at M G_bits (Z.of_N ph_bits) /\
+    match fst (ren_placeholder (skipn o s)) with
+    | Some dm => exists g, v = VPtr g 0 /\ str_at M g dm
+    | None => v = VInt 0
+    end.
+Proof.
+  intros Hro Hbits Hs H256 Hlen Ho Hwb Nwb Rwb Nwbb Hf HF.
+  pose proof (str_bits_ne m b s Hs Hbits) as Nbb.
+  assert (Lwb : (wb < length m)%nat) by (apply nth_error_Some; congruence).
+  assert (Lb : (b < length m)%nat) by (apply nth_error_Some; unfold str_at in Hs; congruence).
+  assert (Lbits : (G_bits < length m)%nat) by (apply nth_error_Some; destruct Hbits as [H|H]; unfold cell_at in H; congruence).
+  enter F_ren_placeholder cf_ren_placeholder.
+  rewrite exec_seq. rewrite exec_seq. rewrite exec_expr. xcbn.
+  rewrite malloc_ok by lia. xcbn. change (repeat VUndef (Z.to_nat 1)) with [VUndef].
+  rewrite exec_expr. xcbn.
+  rewrite malloc_ok by lia. xcbn. change (repeat VUndef (Z.to_nat 1)) with [VUndef].
+  rewrite app_length. cbn [length]. rewrite <- app_assoc. cbn [app].
+  set (sb := length m). set (db := (sb + 1)%nat).
+  match goal with |- context [mkst _ ?M] => remember M as m0 eqn:Em0 end.
+  assert (Hdist : phdist sb db wb).
+  { unfold phdist, db, sb. repeat split; try lia; try exact Nwb; try exact Rwb; apply (ro_false_ge m); try exact Hro; lia. }
+  assert (Hro0 : ro_at m0) by (rewrite Em0; apply ro_at_app; exact Hro).
+  assert (Hs0 : str_at m0 b s) by (unfold str_at; rewrite Em0; rewrite nth_error_app1 by exact Lb; exact Hs).
+  assert (Hbd : b <> sb /\ b <> db /\ b <> wb /\ b <> G_bits) by (unfold db, sb; repeat split; try lia; congruence).
+  assert (Hst0 : forall bv, cell_at m G_bits bv -> phst m0 m0 sb db wb VUndef VUndef vw0 bv).
+  { intros bv Hc. unfold phst, db, sb, cell_at. rewrite Em0. repeat split.
+    - rewrite nth_error_app2 by lia. rewrite Nat.sub_diag. reflexivity.
+    - rewrite nth_error_app2 by lia. replace (length m + 1 - length m)%nat with 1%nat by lia. reflexivity.
+    - rewrite nth_error_app1 by exact Lwb. exact Hwb.
+    - rewrite nth_error_app1 by exact Lbits. exact Hc. }
+  assert (Hend : forall M vs vd vw iv, phst m0 M sb db wb vs vd vw (Z.of_N ph_bits) ->
+    exists v M',
+      match exec (callf cprog fuel (S (S (S d)))) fuel ph_tail (mkst [VPtr b (Z.of_nat o); VPtr wb 0; VPtr sb 0; VPtr db 0; iv] M) with
+      | ONormal st => Ok (VUndef, memm st)
+      | OReturn v st => Ok (v, memm st)
+      | OErr x => Err x
+      | _ => Err EShape
+      end = Ok (v, M') /\
+      length M' = (length m + 2)%nat /\
+      (forall g, (g < length m)%nat -> g <> wb -> g <> G_bits -> nth_error M' g = nth_error m g) /\
+      nth_error M' wb = Some [VInt (snd (ren_placeholder (skipn o s)))] /\
+      cell_at M' G_bits (Z.of_N ph_bits) /\
+      match fst (ren_placeholder (skipn o s)) with
+      | Some dm => exists g, v = VPtr g 0 /\ str_at M' g dm
+      | None => v = VInt 0
+      end).
+  { intros M vs vd vw iv Hst.
+    destruct (ph_tail_ok fuel d m0 sb db wb b s o Hdist Hro0 Hs0 Hbd H256 Hlen Ho M vs vd vw iv fuel Hst Hf HF)
+      as [v [M' [vs' [vd' [loc' [X [Hst' Hv]]]]]]].
+    exists v, M'. rewrite X. split; [reflexivity|].
+    pose proof (phst_ro _ _ _ _ _ _ _ _ _ Hdist Hst' Hro0) as HroM'.
+    destruct Hst' as [HL [HO [A [B [C D]]]]].
+    split; [rewrite HL, Em0, app_length; reflexivity|].
+    split; [intros g Hg G1 G2; rewrite HO by (unfold db, sb; lia || assumption); rewrite Em0; apply nth_error_app1; exact Hg|].
+    split; [exact C|]. split; [exact D|].
+    destruct (fst (ren_placeholder (skipn o s))) as [dm|]; [|exact Hv].
+    destruct Hv as [g [E1 [E2 E3]]]. exists g. split; [exact E1|]. unfold str_at. rewrite (HroM' g E2). exact E3. }
+  unfold ph_tail in Hend; cbn [fn_body cf_ren_placeholder] in Hend.
+  rewrite exec_seq, exec_if. xcbn.
+  destruct Hbits as [Hc|Hc]; pose proof (Hst0 _ Hc) as Hst; pose proof Hst as [_ [_ [_ [_ [_ D]]]]];
+    rewrite (load_cell m0 G_ren_placeholder__bits _ D); xcbn.
+  - change (wrap I32 65535 =? 65535) with true. xcbn. rewrite exec_seq, exec_expr. xcbn.
+    destruct (ph_loop1_ok fuel d m0 sb db wb Hdist Hro0 (VPtr b (Z.of_nat o)) nph 0%nat m0 VUndef VUndef vw0 65535%N fuel
+                ltac:(lia) Hst ltac:(lia) Hf) as [M1 [vs1 [vd1 [vw1 [X Hst1]]]]].
+    unfold ph_loop1 in X; cbn [fn_body cf_ren_placeholder] in X. change (Z.of_nat 0) with 0 in X. rewrite X.
+    cbn [skipn] in Hst1. rewrite <- ph_bits_fold in Hst1. apply (Hend M1 vs1 vd1 vw1 _ Hst1).
+  - rewrite (wrap_I32_id (Z.of_N ph_bits)) by (pose proof ph_bits_int; lia). rewrite ph_bits_ne. xcbn. rewrite exec_skip.
+    apply (Hend m0 VUndef VUndef vw0 _ Hst).
+Qed.
